@@ -766,3 +766,278 @@ Proof.
         rewrite <- !app_assoc in E2. apply app_inv_head in E2. cbn in E2. inversion E2; subst.
         apply Hn. apply (in_map fst) in Hin. exact Hin.
 Qed.
+
+Lemma walk_head n rel : In (rel, n) (walk n rel).
+Proof. destruct n; [cbn; now left|rewrite walk_dir; now left]. Qed.
+
+Lemma walk1_sub n rel e : In e (walk1 n rel) -> In e (walk n rel).
+Proof.
+  destruct n as [c m|ch]; [cbn; tauto|].
+  unfold walk1. rewrite walk_dir. intros [H|H]; [now left|right].
+  rewrite in_map_iff in H. destruct H as [[k c] [E Hin]]. cbn [fst snd] in E. subst e.
+  unfold walk_kids. apply in_flat_map. exists (k, c). split; [exact Hin|]. cbn [fst snd]. apply walk_head.
+Qed.
+
+Lemma wf_geto n q n' : wf_node n -> geto (Some n) q = Some n' ->
+  Forall (fun x => name_ok x = true) q /\ wf_node n'.
+Proof.
+  intros W G. pose proof (walk_complete q n [] n' G) as H. cbn [app] in H.
+  destruct (walk_sound n [] q n' W H) as (suf & E & _ & F & Wn). cbn [app] in E. subst. now split.
+Qed.
+
+Lemma NoDup_map_in {A B} (f : A -> B) l :
+  (forall x y, In x l -> In y l -> f x = f y -> x = y) -> NoDup l -> NoDup (map f l).
+Proof.
+  induction l as [|a l IH]; intros Inj ND; [constructor|].
+  inversion ND as [|? ? Ha ND']; subst. cbn. constructor.
+  - rewrite in_map_iff. intros [y [E Hy]]. apply Ha.
+    rewrite (Inj a y); [exact Hy|now left|now right|now symmetry].
+  - apply IH; auto. intros x y Hx Hy. apply Inj; now right.
+Qed.
+
+Lemma walk1_nodup ch rel : NoDup (map fst ch) -> NoDup (map fst (walk1 (Dir ch) rel)).
+Proof.
+  intros ND. unfold walk1. cbn [map fst]. rewrite map_map. cbn [fst]. constructor.
+  - rewrite in_map_iff. intros [[k c] [E _]]. cbn [fst] in E.
+    apply (f_equal (@List.length _)) in E. rewrite app_length in E. cbn in E. lia.
+  - rewrite <- (map_map fst (fun k => rel ++ [k])). apply NoDup_map_in; [|exact ND].
+    intros x y _ _ E. apply app_inv_head in E. now inversion E.
+Qed.
+
+Lemma geto_app_local on p q : geto on (p ++ q) = geto (geto on p) q.
+Proof.
+  revert on. induction p as [|s p IH]; intros on; [reflexivity|].
+  cbn [app geto]. destruct on as [[c m|ch]|]; try (now rewrite geto_None_local). apply IH.
+Qed.
+
+(** ** ReadDir through client and server over LocalFileSystem *)
+Section LocalScope.
+  Variable X : ext.
+  Hypothesis L : codec_laws X.
+  (** the MIME types of the extension table are text XML carries unchanged *)
+  Hypothesis Hmime : forall p, x_text X (x_mime_ext X p) = x_mime_ext X p.
+  Variable dmeta : list string -> N * N.
+  Hypothesis Hdm : forall q, (fst (dmeta q) < big)%N /\ (snd (dmeta q) < big)%N.
+  Variable t : option node.
+  Hypothesis Wt : forall n, t = Some n -> wf_node n.
+  Variable writes : filesystem.
+  Variable ep : string.
+
+  Definition listing (recursive : bool) (n : node) : list (path * node) :=
+    if recursive then walk n [] else walk1 n [].
+
+  (** what the property calls "itself and its direct members" / "all descendants" *)
+  Definition scope (recursive : bool) (segs q : path) : Prop :=
+    if recursive then exists suf, q = segs ++ suf else q = segs \/ exists k, q = segs ++ [k].
+
+  Lemma wf_time_of_ns m : (m < big)%N -> wf_time (instant_of_ns m) = true.
+  Proof.
+    intros H. unfold wf_time, instant_of_ns, giga, big in *. cbn [t_sec t_ns]. apply orb_true_iff. right.
+    assert (m / 1000000000 < 9223372037)%N by (apply N.div_lt_upper_bound; lia).
+    assert (m mod 1000000000 < 1000000000)%N by (apply N.mod_lt; lia).
+    set (d := (m / 1000000000)%N) in *. clearbody d.
+    rewrite !andb_true_iff. repeat split.
+    - apply Z.leb_le. lia.
+    - apply Z.ltb_lt. lia.
+    - now apply N.ltb_lt.
+  Qed.
+
+  Lemma wf_info_of_node q n : Forall (fun x => name_ok x = true) q -> wf_node n ->
+    wf_info X (fi_of_node X dmeta q n) = true.
+  Proof.
+    intros F W. unfold wf_info, fi_of_node.
+    destruct n as [c m|ch].
+    - inversion W; subst. cbn [i_path i_mod i_size i_dir i_mime].
+      rewrite (wf_path_external _ F), wf_time_of_ns by assumption. cbn [andb orb].
+      rewrite Hmime, String.eqb_refl, andb_true_r. apply N.ltb_lt. assumption.
+    - destruct (dmeta q) as [sz mt] eqn:E. pose proof (Hdm q) as [H1 H2]. rewrite E in H1, H2. cbn [fst snd] in *.
+      cbn [i_path i_mod i_size i_dir i_mime].
+      rewrite (wf_path_external _ F), wf_time_of_ns by assumption. cbn [andb orb].
+      rewrite andb_true_r. apply N.ltb_lt. assumption.
+  Qed.
+
+  Lemma listing_sub recursive n e : In e (listing recursive n) -> In e (walk n []).
+  Proof. destruct recursive; cbn [listing]; [tauto|apply walk1_sub]. Qed.
+
+  Variable name : string.
+  Variable recursive : bool.
+  Variable segs : path.
+  Variable ch : list (string * node).
+  Hypothesis Hsegs : local_segs (resolve_href ep name) = Ok segs.
+  Hypothesis Hdir : geto t segs = Some (Dir ch).
+
+  Let p := resolve_href ep name.
+  Let entries := listing recursive (Dir ch).
+  Let result := map (fun pn => view (fi_of_node X dmeta (segs ++ fst pn) (snd pn))) entries.
+
+  Lemma segs_ok : Forall (fun x => name_ok x = true) segs /\ wf_node (Dir ch).
+  Proof.
+    destruct t as [n0|] eqn:T; [|now rewrite geto_None_local in Hdir].
+    apply (wf_geto n0 segs (Dir ch) (Wt n0 eq_refl) Hdir).
+  Qed.
+
+  Lemma entry_ok_local rel n' : In (rel, n') entries ->
+    Forall (fun x => name_ok x = true) (segs ++ rel) /\ wf_node n' /\ geto t (segs ++ rel) = Some n'.
+  Proof.
+    intros H. apply listing_sub in H. destruct segs_ok as [Fs Wd].
+    destruct (walk_sound _ _ _ _ Wd H) as (suf & E & G & F & Wn). cbn [app] in E. subst suf.
+    repeat split; auto.
+    - apply Forall_app. now split.
+    - rewrite geto_app_local, Hdir. exact G.
+  Qed.
+
+  (** the client's listing is the server's, entry by entry *)
+  Theorem readdir_local :
+    client_readdir X (local_fs X dmeta t writes) ep name recursive =
+    ([CStat p; CReadDir p recursive], OList result).
+  Proof.
+    pose proof (readdir_roundtrip X L (local_fs X dmeta t writes) ep name recursive
+                  (fi_of_node X dmeta segs (Dir ch))
+                  (map (fun pn => fi_of_node X dmeta (segs ++ fst pn) (snd pn)) entries)) as R.
+    cbn zeta in R. cbn [local_fs fs_stat fs_readdir] in R. unfold local_stat, local_readdir in R.
+    rewrite Hsegs, Hdir in R. fold p in R.
+    unfold result. rewrite <- (map_map (fun pn => fi_of_node X dmeta (segs ++ fst pn) (snd pn)) view).
+    apply R; try reflexivity.
+    - unfold fi_of_node. now destruct (dmeta segs).
+    - apply forallb_forall. intros fi Hfi. rewrite in_map_iff in Hfi. destruct Hfi as [[rel n'] [E Hin]].
+      cbn [fst snd] in E. subst fi. destruct (entry_ok_local _ _ Hin) as (F & Wn & _).
+      now apply wf_info_of_node.
+  Qed.
+
+  Lemma path_of_view fi : i_path (view fi) = i_path fi.
+  Proof. unfold view. now destruct (i_dir fi). Qed.
+
+  Lemma dir_of_view fi : i_dir (view fi) = i_dir fi.
+  Proof. unfold view. now destruct (i_dir fi) eqn:E. Qed.
+
+  Lemma result_paths : map i_path result = map (fun pn => external_path (segs ++ fst pn)) entries.
+  Proof.
+    unfold result. rewrite map_map. apply map_ext. intros [rel n']. cbn [fst snd].
+    rewrite path_of_view. unfold fi_of_node. now destruct n'; [|destruct (dmeta (segs ++ rel))].
+  Qed.
+
+  Lemma entries_nodup : NoDup (map fst entries).
+  Proof.
+    destruct segs_ok as [_ Wd]. unfold entries, listing. destruct recursive.
+    - now apply walk_nodup.
+    - inversion Wd; subst. now apply walk1_nodup.
+  Qed.
+
+  (** each exactly once *)
+  Theorem readdir_local_nodup : NoDup (map i_path result).
+  Proof.
+    rewrite result_paths. rewrite <- (map_map fst (fun rel => external_path (segs ++ rel))).
+    apply NoDup_map_in; [|apply entries_nodup].
+    intros x y Hx Hy E. rewrite in_map_iff in Hx, Hy.
+    destruct Hx as [[rx nx] [Ex Hx]], Hy as [[ry ny] [Ey Hy]]. cbn [fst] in Ex, Ey. subst rx ry.
+    destruct (entry_ok_local _ _ Hx) as (Fx & _), (entry_ok_local _ _ Hy) as (Fy & _).
+    apply (external_path_inj _ _ Fx Fy) in E. now apply app_inv_head in E.
+  Qed.
+
+  (** every entry: in scope, and under the path by which it can be addressed again —
+      the path is absolute (so it resolves to itself against any endpoint),
+      LocalFileSystem maps it back to the node the entry describes, of the kind and
+      (for a file) size reported *)
+  Theorem readdir_local_sound e : In e result ->
+    exists q n, i_path e = external_path q /\ resolve_href ep (i_path e) = i_path e /\
+      local_segs (i_path e) = Ok q /\ geto t q = Some n /\ scope recursive segs q /\
+      match n with
+      | Dir _ => i_dir e = true
+      | File c m => i_dir e = false /\ i_size e = strlen c /\ i_etag e = etag_of m (strlen c) /\
+                    i_mod e = to_second (instant_of_ns m)
+      end.
+  Proof.
+    unfold result. rewrite in_map_iff. intros [[rel n'] [E Hin]]. cbn [fst snd] in E. subst e.
+    destruct (entry_ok_local _ _ Hin) as (F & Wn & G).
+    exists (segs ++ rel), n'.
+    assert (P : i_path (view (fi_of_node X dmeta (segs ++ rel) n')) = external_path (segs ++ rel)).
+    { rewrite path_of_view. unfold fi_of_node. now destruct n'; [|destruct (dmeta (segs ++ rel))]. }
+    rewrite P. split; [reflexivity|]. split; [reflexivity|]. split; [now apply local_segs_external|].
+    split; [exact G|]. split.
+    - unfold entries, listing, scope in *. destruct recursive; [now exists rel|].
+      unfold walk1 in Hin. destruct Hin as [H|H].
+      + inversion H; subst. left. now rewrite app_nil_r.
+      + rewrite in_map_iff in H. destruct H as [[k c] [E _]]. cbn [fst snd app] in E. inversion E; subst.
+        right. now exists k.
+    - destruct n' as [c m|ch']; unfold view, fi_of_node.
+      + cbn. repeat split; reflexivity.
+      + destruct (dmeta (segs ++ rel)). reflexivity.
+  Qed.
+
+  (** everything mapped in scope is listed *)
+  Theorem readdir_local_complete q n : geto t q = Some n -> scope recursive segs q ->
+    In (external_path q) (map i_path result).
+  Proof.
+    intros G S. rewrite result_paths. rewrite in_map_iff.
+    unfold scope, entries, listing in *. destruct recursive.
+    - destruct S as [suf ->]. rewrite geto_app_local, Hdir in G. exists (suf, n). split; [reflexivity|].
+      exact (walk_complete suf (Dir ch) [] n G).
+    - destruct S as [->|[k ->]].
+      + exists ([], Dir ch). rewrite app_nil_r. split; [reflexivity|]. now left.
+      + rewrite geto_app_local, Hdir in G. cbn [geto] in G. destruct (assoc k ch) as [c|] eqn:A; [|discriminate].
+        inversion G; subst c. exists ([k], n). split; [reflexivity|]. right.
+        rewrite in_map_iff. exists (k, n). split; [reflexivity|]. now apply assoc_In.
+  Qed.
+End LocalScope.
+
+(** ReadDir of a collection served by LocalFileSystem, as the client sees it. *)
+Theorem readdir_scope X dmeta t writes ep name recursive segs ch :
+  codec_laws X ->
+  (forall p, x_text X (x_mime_ext X p) = x_mime_ext X p) ->
+  (forall q, (fst (dmeta q) < big)%N /\ (snd (dmeta q) < big)%N) ->
+  (forall n, t = Some n -> wf_node n) ->
+  local_segs (resolve_href ep name) = Ok segs ->
+  geto t segs = Some (Dir ch) ->
+  exists l,
+    client_readdir X (local_fs X dmeta t writes) ep name recursive =
+      ([CStat (resolve_href ep name); CReadDir (resolve_href ep name) recursive], OList l) /\
+    NoDup (map i_path l) /\
+    (forall e, In e l ->
+       exists q n, i_path e = external_path q /\ resolve_href ep (i_path e) = i_path e /\
+         local_segs (i_path e) = Ok q /\ geto t q = Some n /\ scope recursive segs q /\
+         match n with
+         | Dir _ => i_dir e = true
+         | File c m => i_dir e = false /\ i_size e = strlen c /\ i_etag e = etag_of m (strlen c) /\
+                       i_mod e = to_second (instant_of_ns m)
+         end) /\
+    (forall q n, geto t q = Some n -> scope recursive segs q -> In (external_path q) (map i_path l)).
+Proof.
+  intros L Hm Hd Wt Hs Hg.
+  exists (map (fun pn => view (fi_of_node X dmeta (segs ++ fst pn) (snd pn))) (listing recursive (Dir ch))).
+  split; [exact (readdir_local X L Hm dmeta Hd t Wt writes ep name recursive segs ch Hs Hg)|].
+  split; [exact (readdir_local_nodup X dmeta t Wt recursive segs ch Hg)|].
+  split; [exact (readdir_local_sound X dmeta t Wt ep recursive segs ch Hg)|].
+  exact (readdir_local_complete X dmeta t recursive segs ch Hg).
+Qed.
+
+(** Stat of anything LocalFileSystem maps: the client sees the node's metadata. *)
+Theorem stat_local X dmeta t writes ep name segs n :
+  codec_laws X ->
+  (forall p, x_text X (x_mime_ext X p) = x_mime_ext X p) ->
+  (forall q, (fst (dmeta q) < big)%N /\ (snd (dmeta q) < big)%N) ->
+  (forall n0, t = Some n0 -> wf_node n0) ->
+  local_segs (resolve_href ep name) = Ok segs ->
+  geto t segs = Some n ->
+  client_stat X (local_fs X dmeta t writes) ep name =
+    ([CStat (resolve_href ep name)], OInfo (view (fi_of_node X dmeta segs n))).
+Proof.
+  intros L Hm Hd Wt Hs Hg.
+  apply (stat_roundtrip X L).
+  - cbn [local_fs fs_stat]. unfold local_stat. now rewrite Hs, Hg.
+  - destruct t as [n0|] eqn:T; [|now rewrite geto_None_local in Hg].
+    destruct (wf_geto n0 segs n (Wt n0 eq_refl) Hg) as [F W].
+    now apply wf_info_of_node.
+Qed.
+
+(** Open of a file LocalFileSystem maps: its bytes. *)
+Theorem open_local X dmeta t writes ep name segs c m :
+  local_segs (resolve_href ep name) = Ok segs ->
+  geto t segs = Some (File c m) ->
+  client_open (local_fs X dmeta t writes) ep name =
+    ([CStat (resolve_href ep name); COpen (resolve_href ep name)], OBytes c).
+Proof.
+  intros Hs Hg. apply (open_bytes _ _ _ (fi_of_node X dmeta segs (File c m))).
+  - cbn [local_fs fs_stat]. unfold local_stat. now rewrite Hs, Hg.
+  - reflexivity.
+  - cbn [local_fs fs_open]. unfold local_open. now rewrite Hs, Hg.
+Qed.
